@@ -41,6 +41,11 @@ pub struct TimeTriggerConfig {
     max_random_delay: u64,
 }
 
+/// Schedules further away than this (about 100 000 years) are treated as "never".
+const MAX_SPAN_SECONDS: i64 = 100_000 * 366 * 24 * 60 * 60;
+/// The last year a rotation can be scheduled in.
+const MAX_YEAR: i64 = 9999;
+
 /// A trigger which rolls the log once it has passed a certain time.
 #[derive(Debug)]
 pub struct TimeTrigger {
@@ -203,7 +208,11 @@ impl TimeTrigger {
         let next_time = TimeTrigger::get_next_time(current, config.interval, config.modulate);
         let next_roll_time = if config.max_random_delay > 0 {
             let random_delay = rand::thread_rng().gen_range(0..config.max_random_delay);
-            next_time + Duration::seconds(random_delay as i64)
+            // an absurd delay must not overflow the schedule
+            let random_delay = random_delay.min(MAX_SPAN_SECONDS as u64) as i64;
+            next_time
+                .checked_add_signed(Duration::seconds(random_delay))
+                .unwrap_or(next_time)
         } else {
             next_time
         };
@@ -219,7 +228,36 @@ impl TimeTrigger {
         interval: TimeTriggerInterval,
         modulate: bool,
     ) -> DateTime<Local> {
-        let increment = |n: i64, position: i64| if modulate { n - position % n } else { n };
+        // An interval too large to be represented is never reached.
+        TimeTrigger::checked_next_time(current, interval, modulate).unwrap_or_else(|| {
+            let far_future = NaiveDate::from_ymd_opt(MAX_YEAR as i32, 12, 31)
+                .expect("valid date")
+                .and_time(NaiveTime::MIN);
+            Local.from_utc_datetime(&far_future)
+        })
+    }
+
+    fn checked_next_time(
+        current: DateTime<Local>,
+        interval: TimeTriggerInterval,
+        modulate: bool,
+    ) -> Option<DateTime<Local>> {
+        // a multiplier below one makes no sense; roll every unit instead of dividing by zero
+        let increment = |n: i64, position: i64| {
+            let n = n.max(1);
+            if modulate {
+                n - position % n
+            } else {
+                n
+            }
+        };
+        // `count` units of `unit_seconds` seconds each, unless that is absurdly long
+        let span = |count: i64, unit_seconds: i64| {
+            count
+                .checked_mul(unit_seconds)
+                .filter(|seconds| *seconds <= MAX_SPAN_SECONDS)
+                .map(Duration::seconds)
+        };
         let naive = current.naive_local();
 
         // Units shorter than a day are truncated and advanced in elapsed time. A local time never
@@ -231,13 +269,16 @@ impl TimeTrigger {
         let hour_start = minute_start - Duration::minutes(i64::from(naive.minute()));
         match interval {
             TimeTriggerInterval::Second(n) => {
-                return second_start + Duration::seconds(increment(n, naive.second().into()));
+                return second_start
+                    .checked_add_signed(span(increment(n, naive.second().into()), 1)?);
             }
             TimeTriggerInterval::Minute(n) => {
-                return minute_start + Duration::minutes(increment(n, naive.minute().into()));
+                return minute_start
+                    .checked_add_signed(span(increment(n, naive.minute().into()), 60)?);
             }
             TimeTriggerInterval::Hour(n) => {
-                return hour_start + Duration::hours(increment(n, naive.hour().into()));
+                return hour_start
+                    .checked_add_signed(span(increment(n, naive.hour().into()), 60 * 60)?);
             }
             _ => {}
         }
@@ -245,33 +286,38 @@ impl TimeTrigger {
         // Longer units are computed on the local calendar, so that the boundary is local midnight
         // even when the UTC offset changes on the way (a day is then 23 or 25 hours long).
         let date = naive.date();
-        let boundary = match interval {
-            TimeTriggerInterval::Day(n) => {
-                date + Duration::days(increment(n, date.ordinal0().into()))
+        let first_of = |year: i64, month0: i64| {
+            if year > MAX_YEAR {
+                return None;
             }
+            NaiveDate::from_ymd_opt(year as i32, month0 as u32 + 1, 1)
+        };
+        let boundary = match interval {
+            TimeTriggerInterval::Day(n) => date.checked_add_signed(span(
+                increment(n, date.ordinal0().into()),
+                24 * 60 * 60,
+            )?)?,
             TimeTriggerInterval::Week(n) => {
                 // Monday is the first day of the week
                 let monday = date - Duration::days(date.weekday().num_days_from_monday().into());
-                monday + Duration::weeks(increment(n, date.iso_week().week0().into()))
+                monday.checked_add_signed(span(
+                    increment(n, date.iso_week().week0().into()),
+                    7 * 24 * 60 * 60,
+                )?)?
             }
             TimeTriggerInterval::Month(n) => {
-                let months = i64::from(date.year()) * 12
-                    + i64::from(date.month0())
-                    + increment(n, date.month0().into());
-                NaiveDate::from_ymd_opt(
-                    months.div_euclid(12) as i32,
-                    months.rem_euclid(12) as u32 + 1,
-                    1,
-                )
-                .expect("month out of range")
+                let months = (i64::from(date.year()) * 12 + i64::from(date.month0()))
+                    .checked_add(increment(n, date.month0().into()))?;
+                first_of(months.div_euclid(12), months.rem_euclid(12))?
             }
             TimeTriggerInterval::Year(n) => {
-                let year = i64::from(date.year()) + increment(n, date.year().into());
-                NaiveDate::from_ymd_opt(year as i32, 1, 1).expect("year out of range")
+                let year =
+                    i64::from(date.year()).checked_add(increment(n, date.year().into()))?;
+                first_of(year, 0)?
             }
             _ => unreachable!("shorter units return above"),
         };
-        TimeTrigger::local_midnight(boundary, current)
+        Some(TimeTrigger::local_midnight(boundary, current))
     }
 
     /// The instant at which the local calendar shows midnight of `date`, which lies after `after`.
